@@ -478,6 +478,30 @@ pub fn run_numeric(case: &NumCase, st: &mut Stats) -> CaseResult {
             e
         })?;
     }
+    // complex numbers whose real and imaginary parts live at very different magnitudes (each component scaled by
+    // its own power of two): the laws that hold for every pair of finite values without any rounding argument -
+    // both identities, the annihilating zero, commutativity - must hold there too
+    {
+        let e = |i: usize| -> i32 { ((case.v.get(i).map(|n| n.k).unwrap_or(0) as i32).rem_euclid(7) - 3) * 20 };
+        let sc = |x: f64, ex: i32| x * (2.0f64).powi(ex);
+        let xs = [
+            Complex { re: sc(f[0], e(1)), im: sc(f[1], e(0)) },
+            Complex { re: sc(f[2], e(3)), im: sc(f[3], e(2)) },
+            Complex { re: 1.0 + sc(f[4], -52), im: sc(f[5], e(4)) },
+        ];
+        let (one, zero) = (Complex::one(), Complex::zero());
+        for x in xs.iter() {
+            ensure!((*x * one) == *x && (one * *x) == *x, "C13/complex:mul-identity", "{:?} * one = {:?}, one * it = {:?}", x, *x * one, one * *x);
+            ensure!((*x + zero) == *x && (zero + *x) == *x, "C13/complex:add-identity", "{:?} + zero = {:?}", x, *x + zero);
+            ensure!((*x * zero) == zero && (zero * *x) == zero, "C13/complex:zero-annihilates", "{:?} * zero = {:?}", x, *x * zero);
+        }
+        for x in xs.iter() {
+            for y in xs.iter() {
+                ensure!((*x * *y) == (*y * *x), "C13/complex:mul-commutative", "{:?} * {:?} = {:?} but the other way round {:?}", x, y, *x * *y, *y * *x);
+                ensure!((*x + *y) == (*y + *x), "C13/complex:add-commutative", "{:?} + {:?} is not commutative", x, y);
+            }
+        }
+    }
     // Boolean
     let (ba, bb, bc) = (
         BooleanSemiring(case.bools.0),
@@ -501,7 +525,7 @@ pub fn run_numeric(case: &NumCase, st: &mut Stats) -> CaseResult {
 impl SubCheckT for Numeric {
     type Case = NumCase;
     const NAME: &'static str = "real_complex_eu_bool_rational";
-    const RULE: &'static str = "triples of exactly representable values (integers in [-64,64], dyadics k/8) for the real, complex and expected-utility types, all Boolean triples, naturals < 40 built from one()/zero() for the rational type: semiring laws with exact equality, ring subtraction inverts addition (also for the triples scaled by 2^-60 and 2^40, which keeps all sums and products exact), join/meet idempotent/commutative/associative, and for every PartialOrd-related pair join = choose (both the semiring and the ring variant) = larger, meet = smaller, also for the triples scaled by 2^-60 / 2^40 and for values a few units in the last place apart. Non-trivial: first components pairwise distinct and none is 0 or 1";
+    const RULE: &'static str = "triples of exactly representable values (integers in [-64,64], dyadics k/8) for the real, complex and expected-utility types, all Boolean triples, naturals < 40 built from one()/zero() for the rational type: semiring laws with exact equality, ring subtraction inverts addition (also for the triples scaled by 2^-60 and 2^40, which keeps all sums and products exact; and identities, annihilation and commutativity for complex numbers whose components are scaled independently by 2^-60..2^60), join/meet idempotent/commutative/associative, and for every PartialOrd-related pair join = choose (both the semiring and the ring variant) = larger, meet = smaller, also for the triples scaled by 2^-60 / 2^40 and for values a few units in the last place apart. Non-trivial: first components pairwise distinct and none is 0 or 1";
     fn cases(tier: Tier) -> u32 {
         tier.pick(150_000, 1_500_000)
     }
